@@ -7,10 +7,10 @@
 EXTENDS PartsHistory, PartsOrderMC
 
 HPkgs == { MkPkg("pptx", Miss(OProf("renamed", "rel", "conv", TRUE, FALSE), 2), <<3, 1, 2>>, <<2, 3, 1>>, <<1, 3, 2>>),
-           MkPkg("pptx", Alias(Enc(OProf("dot", "abs", "last", FALSE, TRUE), "sp20"), "decoded"), <<2, 3, 1>>, <<3, 2, 1>>, <<2, 1, 3>>),
+           MkPkg("pptx", Xml(Alias(Enc(OProf("dot", "abs", "last", FALSE, TRUE), "sp20"), "decoded"), XmlProf(TRUE, "ns1", TRUE, TRUE, TRUE, TRUE, "std")), <<2, 3, 1>>, <<3, 2, 1>>, <<2, 1, 3>>),
            MkPkg("epub", Alias(Miss(EProf("nested", "pct2520", "two", 3, "first", TRUE, TRUE, FALSE), 1), "decoded"),
                  <<2, 1, 3>>, <<3, 1, 2>>, <<3, 2, 1>>),
-           MkPkg("epub", ChainOf(EProf("renamed", "plusLit", "one", 2, "last", FALSE, TRUE, TRUE), "three"),
+           MkPkg("epub", Xml(ChainOf(EProf("renamed", "plusLit", "one", 2, "last", FALSE, TRUE, TRUE), "three"), XmlProf(FALSE, "r", FALSE, TRUE, FALSE, TRUE, "bom")),
                  <<3, 1, 2>>, <<1, 3, 2>>, <<2, 3, 1>>) }
 
 C(op, sel, opt) == [op |-> op, sel |-> sel, opt |-> opt]
